@@ -7,16 +7,17 @@ import "unsafe"
 //	ch <- v            ->  vsimrt.Send(ch, v)
 //	<-ch               ->  vsimrt.Recv(ch)
 //	v, ok := <-ch      ->  v, ok := vsimrt.Recv2(ch)
-//	for v := range ch  ->  for { v, ok := vsimrt.Recv2(ch); if !ok { break }; ... }
-//	select without default -> polling loop with vsimrt.SelectIdle() in a default case
+//	for v := range ch  ->  a Recv2 loop
+//	select { ...; default: ... }  ->  an if/else chain of TryRecv / TrySend
 //
 // so that a task that would block in the Go runtime yields to the simulator
-// instead. Buffered channels keep using the real channel (non-blocking
+// instead. (A select without default is not handled: the instrumenter stops
+// with exit 2.) Buffered channels keep using the real channel (non-blocking
 // attempts), hence the real happens-before edges. An unbuffered send cannot
 // complete by polling (no receiver is ever really parked), so it goes through
 // a rendezvous table with explicit acquire/release annotations in both
-// directions, like the real operation.
-
+// directions, like the real operation; every receive looks into the table
+// first.
 
 type pendingSend struct {
 	ch    unsafe.Pointer
@@ -54,6 +55,17 @@ func taken(i int) bool {
 	return false
 }
 
+// withdraw removes an offer nobody took (the sender is being torn down).
+//
+//go:norace
+func withdraw(i int) bool {
+	if i < len(pend) && pend[i].state == 1 {
+		pend[i] = pendingSend{}
+		return true
+	}
+	return false
+}
+
 //go:norace
 func take(p unsafe.Pointer) (any, *byte, *byte, bool) {
 	for i := range pend {
@@ -67,9 +79,18 @@ func take(p unsafe.Pointer) (any, *byte, *byte, bool) {
 	return nil, nil, nil, false
 }
 
+// resetPending is called at the start of a run. Offers of background tasks
+// that are still parked in a Send (they survive from run to run) stay.
+//
 //go:norace
-func resetPending() {
-	pend = pend[:0]
+func resetPending() {}
+
+func unbox[T any](v any) T {
+	if v == nil { // a nil interface value was sent
+		var z T
+		return z
+	}
+	return v.(T)
 }
 
 // Send mirrors `ch <- v`.
@@ -83,7 +104,8 @@ func Send[T any](ch chan<- T, v T) {
 	if ch != nil && cap(ch) > 0 {
 		for {
 			select {
-			case ch <- v:
+			case ch <- v: // panics if the channel is closed, like the real thing
+				notify()
 				YS(SitePrimBase + 22)
 				return
 			default:
@@ -99,14 +121,93 @@ func Send[T any](ch chan<- T, v T) {
 	tok, back := new(byte), new(byte)
 	raceRelease(unsafe.Pointer(tok))
 	i := offer(chanPtr(ch), v, tok, back)
-	if i < 0 {
-		panic("vsimrt: too many pending unbuffered sends")
-	}
+	notify()
+	done := false
+	defer func() {
+		if !done {
+			withdraw(i) // torn down while waiting: nobody must receive this value later
+		}
+	}()
 	for !taken(i) {
+		// a send on a closed channel panics; a receiver really parked in the
+		// Go runtime (code the rewriter did not reach) is served too
+		select {
+		case ch <- v:
+			if withdraw(i) {
+				done = true
+				notify()
+				YS(SitePrimBase + 22)
+				return
+			}
+		default:
+		}
 		block(SitePrimBase + 23)
 	}
+	done = true
 	raceAcquire(unsafe.Pointer(back))
 	YS(SitePrimBase + 22)
+}
+
+// TrySend mirrors the send case of a select with default.
+func TrySend[T any](ch chan<- T, v T) bool {
+	t := getCur()
+	if t == nil || ch == nil || cap(ch) > 0 {
+		select {
+		case ch <- v:
+			if t != nil {
+				notify()
+			}
+			return true
+		default:
+			return false
+		}
+	}
+	// unbuffered: it succeeds only if a receiver is waiting right now, and
+	// simulated receivers never park in the runtime; a simulated receiver
+	// that is polling will find the offer when it runs next, which is as if
+	// it had not been ready yet. Only a really parked receiver is served.
+	select {
+	case ch <- v:
+		return true
+	default:
+		return false
+	}
+}
+
+// tryRecv makes one attempt: the rendezvous table first, then the real channel.
+func tryRecv[T any](ch <-chan T) (T, bool, bool) {
+	var zero T
+	if ch == nil {
+		return zero, false, false
+	}
+	if v, tok, back, ok := take(chanPtrR(ch)); ok {
+		raceAcquire(unsafe.Pointer(tok))
+		raceRelease(unsafe.Pointer(back))
+		notify()
+		return unbox[T](v), true, true
+	}
+	select {
+	case v, ok := <-ch:
+		notify()
+		return v, ok, true
+	default:
+	}
+	return zero, false, false
+}
+
+// TryRecv mirrors the receive case of a select with default: value, the "ok"
+// of a two-value receive, and whether the case was taken.
+func TryRecv[T any](ch <-chan T) (T, bool, bool) {
+	if getCur() == nil {
+		select {
+		case v, ok := <-ch:
+			return v, ok, true
+		default:
+			var zero T
+			return zero, false, false
+		}
+	}
+	return tryRecv(ch)
 }
 
 // Recv2 mirrors `v, ok := <-ch`.
@@ -118,19 +219,9 @@ func Recv2[T any](ch <-chan T) (T, bool) {
 	}
 	YS(SitePrimBase + 24)
 	for {
-		if ch != nil {
-			if v, tok, back, ok := take(chanPtrR(ch)); ok {
-				raceAcquire(unsafe.Pointer(tok))
-				raceRelease(unsafe.Pointer(back))
-				YS(SitePrimBase + 25)
-				return v.(T), true
-			}
-			select {
-			case v, ok := <-ch:
-				YS(SitePrimBase + 25)
-				return v, ok
-			default:
-			}
+		if v, ok, got := tryRecv(ch); got {
+			YS(SitePrimBase + 25)
+			return v, ok
 		}
 		block(SitePrimBase + 26)
 	}
@@ -140,14 +231,4 @@ func Recv2[T any](ch <-chan T) (T, bool) {
 func Recv[T any](ch <-chan T) T {
 	v, _ := Recv2(ch)
 	return v
-}
-
-// SelectIdle is the default case the instrumenter adds to a select without
-// default: nothing is ready, let another task run.
-func SelectIdle() {
-	t := getCur()
-	if t == nil {
-		return
-	}
-	block(SitePrimBase + 27)
 }
